@@ -336,6 +336,9 @@ fn run_case_opt(ctx: &Ctx, case: &Case, exclude_known: bool) -> CaseResult {
             Err(f) if f.signature == SIG_STALE_SUBTREE_ROOT && exclude_known => {
                 return Ok(Obs::trivial().label("excluded-known:stale-subtree-root-after-reorg"));
             }
+            Err(f) if f.signature == SIG_STALE_CHECKPOINT && exclude_known => {
+                return Ok(Obs::trivial().label("excluded-known:chain-state-truncation-keeps-checkpoints").label("rewind"));
+            }
             r => r?,
         }
         if h.tainted_stale_annotation && exclude_known {
@@ -362,6 +365,8 @@ fn run_case_opt(ctx: &Ctx, case: &Case, exclude_known: bool) -> CaseResult {
         .label_if(h.chain.crossed_shard_boundary(), "shard-boundary-crossed")
         .label_if(h.flags.subtree_roots_put > 0, "subtree-roots-put")
         .label_if(h.flags.remined_txs > 0, "wallet-tx-mined-again-after-reorg")
+        .label_if(h.flags.chain_state_truncations > 0, "truncate-to-chain-state")
+        .label_if(h.flags.chain_state_truncations_below_request > 0, "observation:chain-state-truncation-dropped-below-request")
         .label_if(f.out_of_order, "out-of-order")
         .label_if(f.truncations > 0, "rewind")
         .label_if(st.empty_boundary_blocks > 0, "empty-boundary-block")
@@ -418,6 +423,46 @@ fn known_stale_subtree_root_case() -> Case {
     }
 }
 
+/// The recorded history of the known finding `chain-state-truncation-checkpoint-pruned-at-once`: three empty blocks,
+/// 111 blocks that each add one commitment to one of the three pools in rotation, everything scanned (the first block
+/// alone, then the rest, then the gap), and a `truncate_to_chain_state` to the second empty block, 112 blocks below
+/// the tip.
+fn known_deep_chain_state_truncation_case() -> Case {
+    Case {
+        world: WorldSpec { seed: [3; 32], n_accounts: 2, n_foreign: 2, nu6_3_offset: Some(4), retention_interval: Some(11), base: Some(BaseSpec { gap: 22, sizes: [0, 196599, 65533] }) },
+        long: true,
+        ops: vec![
+            Op::AddEmpty(1),
+            Op::AddBlocks(vec![BlockSpec::default()]),
+            Op::AddBlocks(vec![BlockSpec::default(), BlockSpec::default()]),
+            Op::AddBusy { n: 111, pool_sel: 45, wallet_every: 19 },
+            Op::Scan { sel: 0, len: 1 },
+            Op::Scan { sel: 74695084, len: 113 },
+            Op::ScanGap { which: 1562397452, from_end: true, chunk: 122 },
+            Op::TruncateToChainState { depth: 112, reorg: false },
+        ],
+        final_chunk: 50,
+    }
+}
+
+/// The recorded history of the known finding `chain-state-truncation-keeps-checkpoints`: two empty blocks, only the
+/// second one scanned (frontier checkpoint at the first one's height), `truncate_to_chain_state` to the state below
+/// both, and a different continuation of the chain.
+fn known_stale_checkpoint_case() -> Case {
+    let recv = |v: u64| BlockSpec { txs: vec![TxSpec { items: vec![ItemSpec::Recv { pool: Pool::Sapling, who: Who::Wallet(0), scope: ScopeSel::External, value: v }] }] };
+    Case {
+        world: WorldSpec { seed: [5; 32], n_accounts: 1, n_foreign: 1, nu6_3_offset: Some(10), retention_interval: Some(6), base: None },
+        long: false,
+        ops: vec![
+            Op::AddBlocks(vec![BlockSpec::default(), BlockSpec::default()]),
+            Op::Scan { sel: 2147483651, len: 10 },
+            Op::TruncateToChainState { depth: 8, reorg: true },
+            Op::AddBlocks(vec![recv(10_000), recv(20_000)]),
+        ],
+        final_chunk: 10,
+    }
+}
+
 fn main() {
     chainsim::init_sqlite();
     let ctx = Ctx::from_args("C06", "exploration");
@@ -461,6 +506,32 @@ fn main() {
                 r => r,
             },
             |_| format!("{:?}", known_stale_subtree_root_case()),
+        );
+    }
+    {
+        let ctx2 = ctx.clone();
+        ctx.run_enum(
+            "regression-known-stale-checkpoint-after-chain-state-truncation",
+            1,
+            false,
+            move |_| match run_case_opt(&ctx2, &known_stale_checkpoint_case(), false) {
+                Err(f) if f.signature == SIG_STALE_CHECKPOINT || f.signature == "checkpoint-off-branch" => Err(Fail::new(SIG_STALE_CHECKPOINT, f.msg)),
+                r => r,
+            },
+            |_| format!("{:?}", known_stale_checkpoint_case()),
+        );
+    }
+    {
+        let ctx2 = ctx.clone();
+        ctx.run_enum(
+            "regression-known-deep-chain-state-truncation",
+            1,
+            false,
+            move |_| match run_case_opt(&ctx2, &known_deep_chain_state_truncation_case(), false) {
+                Err(f) if f.signature == "truncate-to-chain-state-failed" => Err(Fail::new("chain-state-truncation-checkpoint-pruned-at-once", f.msg)),
+                r => r,
+            },
+            |_| format!("{:?}", known_deep_chain_state_truncation_case()),
         );
     }
     ctx.run_prop_with("histories", || arb_case_opts(22, 12, true), tier.pick(256, 15_000), 50, |c| run_case(&ctx, c));
